@@ -3,7 +3,7 @@ import ast
 
 from . import rule, info
 from ..program import AnalysisError, src, norm, ClassInfo
-from ..util import (is_name, calls_in, callee_qual, deref, ancestors, handler_outcomes, handler_body_nodes,
+from ..util import (exclusive, polarity, is_name, calls_in, callee_qual, deref, ancestors, handler_outcomes, handler_body_nodes,
                     enclosing_trys, in_handler_of, handler_covers, completes_normally, cls_name, fmt_witness,
                     stmt_of)
 
@@ -406,44 +406,52 @@ def raise_discipline(ctx):
     u, cfg, h = top_handler(ctx)
     p = ctx.program
     evar = h.ast.name
-    # classification by isinstance(e, GlomError)
-    tests = [n for n in ast.walk(h.ast) if isinstance(n, ast.If) and isinstance(n.test, ast.Call)
-             and is_name(n.test.func, 'isinstance') and len(n.test.args) == 2
-             and p.global_qualname(u, n.test.args[1]) == 'core.GlomError']
-    ctx.require(len(tests) >= 2, 'glom(): isinstance(..., GlomError) classification not found')
-    first = [t for t in tests if is_name(t.test.args[0], evar)]
-    ctx.ob(len(first) == 1, u, 'GlomErrors are copied, everything else is wrapped: %s'
-           % [norm(t.test) for t in first])
+    # classification by isinstance(e, GlomError), whichever way round the branches are written
+    body_nodes = set(handler_body_nodes(cfg, h))
+
+    def region(t, edge):
+        return [n for n in exclusive(cfg, t, edge) if n in body_nodes]
+
+    def assigned(nodes):
+        return {n.ast.targets[0].id: n for n in nodes if n.kind == 'stmt' and isinstance(n.ast, ast.Assign)
+                and is_name(n.ast.targets[0])}
+    first = [(t, polarity(t.ast, 'isinstance(%s, GlomError)' % evar)) for t in cfg.nodes if t.kind == 'test' and t in body_nodes]
+    first = [(t, e) for t, e in first if e]
+    ctx.ob(len(first) == 1, u, 'GlomErrors are copied, everything else is wrapped: %s' % [norm(t.ast) for t, _ in first],
+           '' if len(first) == 1 else 'no single isinstance(%s, GlomError) classification in the handler' % evar)
     errvar = None
-    if first:
-        t = first[0]
-        body_assign = [s for s in ast.walk(ast.Module(body=t.body, type_ignores=[])) if isinstance(s, ast.Assign)
-                       and is_name(s.targets[0])]
-        else_assign = [s for s in ast.walk(ast.Module(body=t.orelse, type_ignores=[])) if isinstance(s, ast.Assign)
-                       and is_name(s.targets[0])]
-        names = {s.targets[0].id for s in body_assign} & {s.targets[0].id for s in else_assign}
+    if len(first) == 1:
+        t, yes = first[0]
+        no = 'false' if yes == 'true' else 'true'
+        glom_side, other_side = region(t, yes), region(t, no)
+        names = set(assigned(glom_side)) & set(assigned(other_side))
         ctx.ob(len(names) == 1, u, 'both routes bind the error to raise in one variable: %s' % sorted(names))
         if len(names) == 1:
             errvar = names.pop()
-            wraps = [s for s in else_assign if s.targets[0].id == errvar]
+            wraps = [n.ast for n in other_side if n.kind == 'stmt' and isinstance(n.ast, ast.Assign) and is_name(n.ast.targets[0], errvar)]
             ok = len(wraps) == 1 and isinstance(wraps[0].value, ast.Call) \
                 and callee_qual(p, u, wraps[0].value) == 'core.GlomError.wrap' and is_name(wraps[0].value.args[0], evar)
             ctx.ob(ok, u, 'non-glom exceptions are wrapped by GlomError.wrap(e): %s' % [norm(w) for w in wraps])
             # the copy keeps a reference to the original (used to suppress the duplicate line in the trace)
             sw = [c for c in calls_in(u) if isinstance(c.func, ast.Attribute) and c.func.attr == '_set_wrapped']
-            ctx.ob(len(sw) == 1 and is_name(sw[0].func.value, errvar) and is_name(sw[0].args[0], evar), u,
+            ctx.ob(len(sw) == 1 and is_name(sw[0].func.value, errvar) and is_name(sw[0].args[0], evar)
+                   and cfg.node_containing(sw[0]) in glom_side, u,
                    'the copy remembers the original exception: %s' % [norm(c) for c in sw])
-    second = [t for t in tests if errvar and is_name(t.test.args[0], errvar)]
+    second = [(t, polarity(t.ast, 'isinstance(%s, GlomError)' % errvar)) for t in cfg.nodes
+              if errvar and t.kind == 'test' and t in body_nodes]
+    second = [(t, e) for t, e in second if e]
     ctx.ob(len(second) == 1, u, 'finalisation happens only when wrapping produced a GlomError: %s'
-           % [norm(t.test) for t in second])
-    if second:
-        t = second[0]
-        fin = [c for s in t.body for c in ast.walk(s) if isinstance(c, ast.Call) and isinstance(c.func, ast.Attribute)
+           % [norm(t.ast) for t, _ in second])
+    if len(second) == 1:
+        t, yes = second[0]
+        no = 'false' if yes == 'true' else 'true'
+        fin = [c for n in region(t, yes) for c in ast.walk(n.ast) if isinstance(c, ast.Call) and isinstance(c.func, ast.Attribute)
                and c.func.attr == '_finalize']
         ok = len(fin) == 1 and is_name(fin[0].func.value, errvar)
         ctx.ob(ok, u, 'the error to raise is finalised with the failing frame: %s' % [norm(c) for c in fin])
-        ok = len(t.orelse) == 1 and isinstance(t.orelse[0], ast.Raise) and (t.orelse[0].exc is None or is_name(t.orelse[0].exc, evar))
-        ctx.ob(ok, u, 'when wrapping failed the original is re-raised: %s' % [norm(s) for s in t.orelse])
+        rr = [n.ast for n in region(t, no) if n.kind == 'stmt']
+        ok = len(rr) == 1 and isinstance(rr[0], ast.Raise) and (rr[0].exc is None or is_name(rr[0].exc, evar))
+        ctx.ob(ok, u, 'when wrapping failed the original is re-raised: %s' % [norm(s_) for s_ in rr])
     # after the try: `if err: raise err`
     rs = [n for n in u.own_nodes() if isinstance(n, ast.Raise) and not in_handler_of(n) and is_name(n.exc, errvar)]
     ok = len(rs) == 1
